@@ -38,6 +38,14 @@ pub fn group(name: &str) -> packing::WallpaperGroup<'static> {
             family: packing::CrystalFamily::Orthorhombic,
             wyckoff_str: vec!["x,y", "-x,-y", "-x,y", "x,-y", "x+1/2,y+1/2", "-x+1/2,-y+1/2", "-x+1/2,y+1/2", "x+1/2,-y+1/2"],
         },
+        // the operations of p2mg declared on an oblique cell (the fixture of the library's own unit
+        // tests): away from 90 degrees they are not motions of the cell, the structure is still a
+        // crystal with four molecules per cell and a lattice energy
+        "p2mgM" => packing::WallpaperGroup {
+            name: "p2mg",
+            family: packing::CrystalFamily::Monoclinic,
+            wyckoff_str: vec!["x,y", "-x,-y", "-x+1/2,y", "x+1/2,-y"],
+        },
         "p4" => packing::WallpaperGroup { name: "p4", family: packing::CrystalFamily::Tetragonal, wyckoff_str: vec!["x,y", "-x,-y", "-y,x", "y,-x"] },
         _ => {
             let g: WallpaperGroups = name.parse().expect("group name");
@@ -93,7 +101,7 @@ pub fn random_req(rng: &mut Pcg64Mcg, max_steps: u64) -> Req {
     } else {
         (kt_start, kt_finish, kt_ratio)
     };
-    let max_step = pick(rng, &[2e-6, 2e-5, 0.001, 0.01, 0.05, 0.5, 1.0, 1.5, 1.9]);
+    let max_step = pick(rng, &[2e-6, 2e-5, 0.001, 0.01, 0.05, 0.5, 1.0, 1.5, 1.9, 3.0, 5.0, 2e-7]);
     let convergence = pick(rng, &[None, None, Some(0.), Some(1e-3), Some(0.5), Some(10.), Some(-1.), Some(1e-18), Some(1e-300)]);
     Req {
         steps,
@@ -206,8 +214,24 @@ pub fn scripted_suite(rng: &mut Pcg64Mcg, count: usize, max_steps: u64) -> Vec<R
             req.convergence = None;
             kind = 0;
         }
+        // a temperature far below one ulp of a score of order one, offers one ulp worse on scores
+        // of order 1e-3 (d/kT of a few hundredths: nearly always accepted)
+        let cold = k % 20 == 13;
+        if cold {
+            kind = 0;
+            req.kt_finish = None;
+            req.kt_ratio = Some(0.);
+            req.convergence = None;
+            req.steps = 62;
+        }
         let (desc, brain) = if kind < 5 {
             let (s, tail) = random_script(rng, req.steps as usize);
+            let (s, tail) = if cold {
+                // length 62 selects the score scale 1e-3 (Script::new: directives.len() % 3 == 2)
+                ((0..62).map(|i| if i % 4 == 0 { 'b' } else { 'w' }).collect::<String>(), 'w')
+            } else {
+                (s, tail)
+            };
             let (s, tail) = if heating {
                 ((0..req.steps as usize).map(|i| if i % 7 == 0 { 'B' } else if i % 7 == 3 { 'w' } else { 'W' }).collect::<String>(), 'W')
             } else {
@@ -220,6 +244,9 @@ pub fn scripted_suite(rng: &mut Pcg64Mcg, count: usize, max_steps: u64) -> Vec<R
             }
             // now and then an infinite temperature: every defined proposal is accepted, the
             // undefined ones ('U') still never
+            if cold {
+                req.kt_start = 1e-17;
+            }
             if k % 12 == 5 {
                 req.kt_start = std::f64::INFINITY;
                 req.kt_finish = None;
